@@ -544,6 +544,11 @@ def template_schemas(rng, with_signers):
                               R(k2, [L('L1'), P(p1), L(b)], [[(p1, [L(a)]), (p1, [L(b)])]])]})
         out.append({'rules': [R('#pkt', [L('L0'), P(p2)], None, [k1, k2]), R(k2, [L('L1'), P(p1), L(a)], [[(p1, [L(a), L(b)]), (p1, [L(b), L(c)])]]),
                               R(k1, [L('L1'), P(p1), L(b)], [[(p1, [L(a), L(b), L(b), L(c)])]])]})
+        # a rule with a constrained temporary referenced twice (three times) inside one key rule / one packet rule
+        out.append({'rules': [R('#seg', [L(a), P('_v')], [[('_v', [L(b), L(c)])]]), R(k1, [L('L1'), ('ref', '#seg'), ('ref', '#seg')]),
+                              R('#pkt', [L('L0'), P(p1)], None, [k1])]})
+        out.append({'rules': [R('#seg', [P('_v'), L(a)], [[('_v', [L(b), P(p1)])]]), R(k1, [L('L1'), P(p1), ('ref', '#seg'), ('ref', '#seg'), ('ref', '#seg')]),
+                              R('#pkt', [L('L0'), ('ref', '#seg'), P(p1), ('ref', '#seg')], None, [k1])]})
         # the shared pattern is the highest-numbered named pattern; temporaries next to it
         out.append({'rules': [R('#pkt', [L('L0'), P(p1), P(p2), P('_')], None, [k1]), R(k1, [L('L1'), P(p1), P(p2)], None, [k2]),
                               R(k2, [L('L2'), P('_'), P(p2)])]})
